@@ -15,7 +15,7 @@ Definition fmt_conforms (w:wire_fmt) (k:unit_kind) : bool :=
   match k with
   | UV n => negb (w_tag w) && Nat.eqb (w_lenw w) 0 && match w_body w with WFixed m => N.of_nat m =? n | _ => false end
   | ULV lw lo hi =>
-      negb (w_tag w) && Nat.eqb (w_lenw w) lw &&
+      negb (w_tag w) && Nat.eqb (w_lenw w) lw && (Nat.eqb lw 1 || Nat.eqb lw 2) &&
       match w_body w with
       | WBuf => true
       | WFixed m => fixed_is lo hi (N.of_nat m)      (* the library always sends m octets *)
@@ -24,7 +24,7 @@ Definition fmt_conforms (w:wire_fmt) (k:unit_kind) : bool :=
   | UThalf => w_tag w && w_half w
   | UTV n => w_tag w && negb (w_half w) && Nat.eqb (w_lenw w) 0 && match w_body w with WFixed m => N.of_nat m =? n | _ => false end
   | UTLV lw lo hi =>
-      w_tag w && negb (w_half w) && Nat.eqb (w_lenw w) lw &&
+      w_tag w && negb (w_half w) && Nat.eqb (w_lenw w) lw && (Nat.eqb lw 1 || Nat.eqb lw 2) &&
       match w_body w with
       | WBuf => true
       | WFixed m => fixed_is lo hi (N.of_nat m)
@@ -101,3 +101,60 @@ Definition layout_conforms_except (dev:list (N * N * N)) : bool :=
 (* rows left out of the comparison *)
 Definition uncertain_rows : list (string * N * string) :=
   flat_map (fun t => map (fun r => (tb_name t, r_iei r, r_name r)) (filter r_uncertain (tb_mand t ++ tb_opt t))) ts24501_tables.
+
+(* ---------------------------------------------------------------- conformance of a message to a table *)
+(* the library sends all N octets of a fixed Octet whatever Len says; the standard format carries Len octets *)
+Definition strict_val (x:nf_field) (v:fval) : bool :=
+  if fv_present v then
+    match w_body (nf_fmt x), w_lenw (nf_fmt x) with
+    | WFixed n, S _ => fv_len v =? N.of_nat n
+    | _, _ => true end
+  else true.
+(* value length within the bounds of the table row *)
+Definition in_bounds (u:unit_row) (v:fval) : bool :=
+  if fv_present v then
+    match u_kind u with ULV _ lo hi | UTLV _ lo hi => within (fv_len v) lo hi | _ => true end
+  else true.
+
+(* field-by-field agreement of a descriptor with a table (no uncertain row, no deviation) *)
+Fixpoint units_conform (opt:bool) (xs:list nf_field) (us:list unit_row) : bool :=
+  match xs, us with
+  | [], [] => true
+  | x :: xs', u :: us' =>
+      fmt_conforms (nf_fmt x) (u_kind u) && (if opt then same_ie x u else true) && units_conform opt xs' us'
+  | _, _ => false end.
+Definition layout_strict (d:msg_desc) (t:msg_table) : bool :=
+  match nf_of d, mand_units (tb_mand t), opt_units (tb_opt t) with
+  | Some nf, Some mu, Some ou =>
+      units_conform false (filter (fun x => negb (nf_opt x)) nf) mu &&
+      units_conform true (filter nf_opt nf) ou && table_ok t
+  | _, _, _ => false end.
+
+Fixpoint vals_conform (xs:list nf_field) (us:list unit_row) (vs:list fval) : bool :=
+  match xs, us, vs with
+  | [], [], [] => true
+  | x :: xs', u :: us', v :: vs' => strict_val x v && in_bounds u v && vals_conform xs' us' vs'
+  | _, _, _ => false end.
+
+(* a library value in the vocabulary of the reference codec *)
+Definition sent_body (x:nf_field) (v:fval) : bytes :=
+  match w_body (nf_fmt x) with WUpto _ => firstn (N.to_nat (fv_len v)) (fv_body v) | _ => fv_body v end.
+Definition ref_view (x:nf_field) (v:fval) : fval :=
+  mk_fval true (if nf_opt x then nf_iei x else 0) (fv_len v) (sent_body x v).
+
+Definition field_val (m:msg) (x:nf_field) : fval := match lookup (nf_name x) m with Some v => v | None => absent end.
+(* the message respects what the table says beyond the format: fixed sizes and length bounds *)
+Definition msg_conforms (d:msg_desc) (t:msg_table) (m:msg) : bool :=
+  match nf_of d, mand_units (tb_mand t), opt_units (tb_opt t) with
+  | Some nf, Some mu, Some ou =>
+      let mx := filter (fun x => negb (nf_opt x)) nf in
+      let ox := filter nf_opt nf in
+      vals_conform mx mu (map (field_val m) mx) && vals_conform ox ou (map (field_val m) ox)
+  | _, _, _ => false end.
+(* the message as the reference codec sees it: mandatory values, one value per optional row *)
+Definition msg_view (d:msg_desc) (m:msg) : list fval * list fval :=
+  match nf_of d with
+  | Some nf =>
+      (map (fun x => ref_view x (field_val m x)) (filter (fun x => negb (nf_opt x)) nf),
+       map (fun x => if fv_present (field_val m x) then ref_view x (field_val m x) else absent) (filter nf_opt nf))
+  | None => ([], []) end.
